@@ -2,6 +2,8 @@ import RainModel.Model.STree
 import RainModel.Model.Blocklist
 import RainModel.Lemmas.STree
 import RainModel.Lemmas.Blocklist
+import RainModel.Model.AddrList
+import RainModel.Lemmas.AddrList
 /-!
 C18 — blocklist semantics are exact and filtered addresses are never contacted.
 Property theorems only; helper lemmas live in `Lemmas/`.
@@ -132,5 +134,209 @@ example :
     -- "foo\n1.2.3.4\n"
     (({} : Blocklist).reload [102, 111, 111, 10, 49, 46, 50, 46, 51, 46, 52, 10]).2 = .err .noValidRules := by
   decide
+
+/-! ## The candidate queue (`addrlist`) -/
+
+section AddrList
+open Rain.AddrList
+
+/-- States of an `AddrList` created with `maxItems = max`, after any finite history of
+`Push` (any addresses, any source, any clock value, any resolution `choose` of the unstable
+sort that is a sort, any client IP / listen port / blocklist at that moment), `Pop` and `Reset`.
+`ok` is any predicate implied by the filters of every push of the history. -/
+inductive Reach (max : Nat) (ok : Nat → Nat → Prop) : St → Prop
+  | init : Reach max ok {}
+  | push {s s' : St} {env : Env} {choose : List PA → List PA} {addrs : List Cand} {src now : Nat} :
+      Reach max ok s → env.maxItems = max → (∀ l, Admissible l (choose l)) →
+      (∀ a, filtered env a = false → ok a.ip a.port) →
+      push env choose s addrs src now = .ok s' → Reach max ok s'
+  | pop {s s' : St} {r : Option PA} : Reach max ok s → pop s = .ok (r, s') → Reach max ok s'
+  | reset {s : St} : Reach max ok s → Reach max ok (reset s)
+
+/-- What holds between operations. -/
+structure Good (max : Nat) (s : St) : Prop where
+  inv : Inv s
+  counts : Counts s (fun _ => 0)
+  bound : s.tree.length ≤ max
+  slots : s.byTime.length ≤ max
+
+/-- One `Push` from a good state: it does not panic (in particular the assertion
+"addr list data structures not in sync", the nil dereference and the index expressions of
+`removeExcessItems` are unreachable), the result is good again, and every entry it holds is an
+old entry or an address of this call that passed the filters. -/
+theorem push_good {max : Nat} {s : St} (hg : Good max s) (env : Env) (hmax : env.maxItems = max)
+    (choose : List PA → List PA) (hch : ∀ l, Admissible l (choose l)) (addrs : List Cand) (src now : Nat) :
+    ∃ s', push env choose s addrs src now = .ok s' ∧ Good max s' ∧ s'.byTime.length = s'.tree.length ∧
+      ∀ q ∈ s'.entries, (∃ q0 ∈ s.entries, SameCore q q0) ∨
+        ∃ a ∈ addrs, filtered env a = false ∧ q.ip = a.ip ∧ q.port = a.port ∧ q.prio = a.prio ∧
+          q.src = src ∧ q.stamp = now := by
+  have hC0 : Counts s (off src 0) := by
+    intro x; have := hg.counts x; simp only [off] at this ⊢; split <;> simpa using this
+  obtain ⟨s1, added, h1, hI1, hC1, ho1⟩ := pushLoop_inv env src now addrs s 0 hg.inv hC0
+  obtain ⟨s3, h3, hI3, hC3, hb3, hl3, ho3⟩ :=
+    pushFinish_spec env src s1 added (choose (filterNils s1.byTime)) hI1 hC1 (hch _)
+  refine ⟨s3, ?_, ⟨hI3, hC3, by omega, by omega⟩, hl3, ?_⟩
+  · simp only [push, h1, h3]
+  · intro q hq
+    obtain ⟨q0, hq0, hc⟩ := ho3 q hq
+    rcases ho1 q0 hq0 with h | ⟨a, ha, hf, e1, e2, e3, e4, e5⟩
+    · exact Or.inl ⟨q0, h, hc⟩
+    · obtain ⟨c1, c2, c3, c4, c5⟩ := hc
+      exact Or.inr ⟨a, ha, hf, c1.trans e1, c2.trans e2, c4.trans e3, c3.trans e4, c5.trans e5⟩
+
+theorem pop_good {max : Nat} {s : St} (hg : Good max s) :
+    ∃ r s', pop s = .ok (r, s') ∧ Good max s' ∧
+      (r = none → s.tree = [] ∧ s' = s) ∧
+      (∀ p, r = some p → p ∈ s.entries ∧ (∀ q ∈ s.entries, q.prio ≤ p.prio) ∧
+        (∀ q, q ∈ s'.entries ↔ q ∈ s.entries ∧ q ≠ p) ∧ s'.len + 1 = s.len) := by
+  obtain ⟨r, s', h, hI, hC, hn, hs⟩ := pop_spec s hg.inv hg.counts
+  refine ⟨r, s', h, ?_, hn, hs⟩
+  cases r with
+  | none =>
+    obtain ⟨_, e⟩ := hn rfl
+    rw [e]; exact hg
+  | some p =>
+    obtain ⟨_, _, _, hlen⟩ := hs p rfl
+    refine ⟨hI, hC, by have := hg.bound; omega, ?_⟩
+    -- `Pop` only overwrites a slot
+    unfold AddrList.pop at h
+    split at h
+    · cases h
+    · split at h
+      · cases h
+      · split at h
+        · cases h
+          simpa using hg.slots
+        · cases h
+
+theorem reach_good {max : Nat} {ok : Nat → Nat → Prop} {s : St} (h : Reach max ok s) :
+    Good max s ∧ ∀ q ∈ s.entries, ok q.ip q.port := by
+  induction h with
+  | init =>
+    exact ⟨⟨inv_empty, counts_empty, Nat.zero_le _, Nat.zero_le _⟩, fun q hq => by simp [St.entries] at hq⟩
+  | @push s s' env choose addrs src now _ hmax hch hok hp ih =>
+    obtain ⟨s'', h1, hg, _, ho⟩ := push_good ih.1 env hmax choose hch addrs src now
+    rw [hp] at h1
+    cases h1
+    refine ⟨hg, ?_⟩
+    intro q hq
+    rcases ho q hq with ⟨q0, hq0, hc⟩ | ⟨a, _, hf, e1, e2, _⟩
+    · have := ih.2 q0 hq0
+      rw [hc.1, hc.2.1]; exact this
+    · rw [e1, e2]; exact hok a hf
+  | @pop s s' r _ hp ih =>
+    obtain ⟨r', s'', h1, hg, _, hs⟩ := pop_good ih.1
+    rw [hp] at h1
+    cases h1
+    refine ⟨hg, ?_⟩
+    intro q hq
+    cases r with
+    | none =>
+      unfold AddrList.pop at hp
+      split at hp
+      · cases hp; exact ih.2 q hq
+      · split at hp
+        · cases hp
+        · split at hp <;> cases hp
+    | some p => exact ih.2 q (((hs p rfl).2.2.1 q).1 hq).1
+  | reset _ _ =>
+    exact ⟨⟨inv_empty, counts_empty, Nat.zero_le _, Nat.zero_le _⟩, fun q hq => by simp [AddrList.reset, St.entries] at hq⟩
+
+/-- **addr_priority_set.** After every history of pushes, pops and resets the queue is a
+bounded priority set, and the next operation behaves like one:
+* never more than `max` entries, no two entries of equal priority, `Len()` is the number of
+  entries, `LenSource` counts exactly, the btree and `peerByTime` hold the same objects with
+  correct `index` fields (`Inv`);
+* the next `Push` — whatever addresses, clock, and admissible sort result — does not panic:
+  the Go assertion "addr list data structures not in sync" is unreachable;
+* the next `Pop` returns nil exactly when the queue is empty, and otherwise removes and returns
+  an entry of maximal priority, leaving all others. -/
+theorem addr_priority_set {max : Nat} {ok : Nat → Nat → Prop} {s : St} (h : Reach max ok s) :
+    (s.len ≤ max ∧ (s.entries.map (·.prio)).Nodup ∧ s.len = s.entries.length ∧ Inv s ∧
+      ∀ x, s.counts x = cnt s.entries x) ∧
+    (∀ (env : Env) (choose : List PA → List PA) (addrs : List Cand) (src now : Nat),
+      env.maxItems = max → (∀ l, Admissible l (choose l)) →
+      ∃ s', push env choose s addrs src now = .ok s' ∧ s'.byTime.length = s'.tree.length) ∧
+    (∃ r s', pop s = .ok (r, s') ∧ (r = none ↔ s.len = 0) ∧
+      ∀ p, r = some p → p ∈ s.entries ∧ (∀ q ∈ s.entries, q.prio ≤ p.prio) ∧
+        (∀ q, q ∈ s'.entries ↔ q ∈ s.entries ∧ q ≠ p) ∧ s'.len + 1 = s.len) := by
+  obtain ⟨hg, _⟩ := reach_good h
+  refine ⟨⟨hg.bound, hg.inv.nodup, len_eq_of hg.inv.sorted hg.inv.mem hg.inv.nodup, hg.inv, ?_⟩, ?_, ?_⟩
+  · intro x; have := hg.counts x; simpa using this
+  · intro env choose addrs src now hmax hch
+    obtain ⟨s', h1, _, h3, _⟩ := push_good hg env hmax choose hch addrs src now
+    exact ⟨s', h1, h3⟩
+  · obtain ⟨r, s', h1, _, hn, hs⟩ := pop_good hg
+    refine ⟨r, s', h1, ?_, hs⟩
+    constructor
+    · intro e; have := (hn e).1; simp [St.len, this]
+    · intro e
+      cases r with
+      | none => rfl
+      | some p =>
+        have := (hs p rfl).2.2.2
+        omega
+
+/-- **addr_bound** (used by C17): the number of queued candidate addresses, and the length of
+`peerByTime` including nil slots, never exceed `MaxPeerAddresses`, whatever is pushed. -/
+theorem addr_bound {max : Nat} {ok : Nat → Nat → Prop} {s : St} (h : Reach max ok s) :
+    s.len ≤ max ∧ s.byTime.length ≤ max :=
+  ⟨(reach_good h).1.bound, (reach_good h).1.slots⟩
+
+/-- What `filtered` tests, spelled out. -/
+theorem filtered_false_iff (env : Env) (a : Cand) :
+    filtered env a = false ↔
+      a.port ≠ 0 ∧ ¬ (isLoopback a.ip = true ∧ a.port = env.listenPort) ∧ env.clientIP ≠ some a.ip ∧
+      a.ip ∉ env.external ∧ env.blocked a.ip = false := by
+  unfold filtered
+  by_cases h1 : a.port = 0
+  · simp [h1]
+  · by_cases h2 : isLoopback a.ip = true ∧ a.port = env.listenPort
+    · simp [h2]
+    · by_cases h3 : env.clientIP = some a.ip
+      · simp [h1, h2, h3]
+      · by_cases h4 : env.external.contains a.ip = true
+        · have : a.ip ∈ env.external := by simpa using h4
+          simp [h1, h2, h3, this]
+        · have : a.ip ∉ env.external := by simpa using h4
+          cases h5 : env.blocked a.ip <;> simp [h1, h2, h3, this]
+
+/-- **push_filters.** Whatever the history, an address held by the queue (hence any address
+`Pop` can ever return) has port ≠ 0 and, at the time it was pushed, was not the client's own
+listening address, not the client's external IP, not an interface address, and not blocked by
+the blocklist given to the list; nothing else enters the queue. `ok` is instantiated with any
+property all those push-time filters imply — e.g. "port ≠ 0", or "not in blocklist B" when the
+blocklist does not change during the history. -/
+theorem push_filters {max : Nat} {ok : Nat → Nat → Prop} {s : St} (h : Reach max ok s) :
+    (∀ q ∈ s.entries, ok q.ip q.port) ∧
+    (∀ r s', pop s = .ok (some r, s') → ok r.ip r.port) := by
+  obtain ⟨hg, hok⟩ := reach_good h
+  refine ⟨hok, ?_⟩
+  intro r s' hp
+  obtain ⟨r', s'', h1, _, _, hs⟩ := pop_good hg
+  rw [hp] at h1
+  cases h1
+  exact hok r (hs r rfl).1
+
+/-- The hypothesis "`choose` is a sort" of `Reach.push` is satisfiable: the stable insertion sort
+by time stamp is admissible. -/
+theorem choose_nonvacuous : ∀ l, Admissible l (stableSort l) := stableSort_admissible
+
+/-- Instance: no queued address ever has port 0, in any history. -/
+theorem queue_port_ne_zero {max : Nat} {s : St} (h : Reach max (fun _ port => port ≠ 0) s) :
+    ∀ q ∈ s.entries, q.port ≠ 0 := (push_filters h).1
+
+/-- Non-vacuity: max 2; three pushes (one filtered: port 0; one replacing an equal priority),
+eviction of the oldest, then `Pop` returns the maximal priority. -/
+example :
+    let env : Env := ⟨2, 6881, some 1, [], fun ip => ip = 66⟩
+    let s1 := push env stableSort {} [⟨10, 80, 5⟩, ⟨11, 0, 9⟩, ⟨66, 80, 7⟩] 0 1
+    let s2 := s1.bind fun s => push env stableSort s [⟨12, 80, 3⟩, ⟨13, 81, 5⟩] 1 2
+    let s3 := s2.bind fun s => push env stableSort s [⟨14, 80, 4⟩] 2 3
+    (s3.toOption.map fun s => s.entries.map fun p => (p.ip, p.prio, p.stamp, p.index)) =
+        some [(12, 3, 2, 0), (14, 4, 3, 1)] ∧
+    ((s3.bind pop).toOption.map fun r => r.1.map (·.ip)) = some (some 14) := by decide
+
+end AddrList
 
 end Rain.Props.C18
